@@ -37,6 +37,14 @@ class Namespace:
         return k in self.__dict__
 
 
+if z3 is not None:
+    VT = z3.Function("VT", z3.IntSort(), z3.BoolSort())
+
+    def vt_axiom():
+        x = z3.Int("vt_x")
+        return z3.ForAll([x], VT(x), patterns=[VT(x)])
+
+
 class BindingError(Exception):
     """A clause mentions a name that does not exist (any more) in the real function."""
 
@@ -127,6 +135,10 @@ class SymOps:
                 ]
             )
         j = self._fresh("q")
+        if kind == "value":
+            # value-domain quantifiers have no array term to trigger on: give them the (always true)
+            # marker predicate VT as E-matching pattern; VT(x) is axiomatised true in every VC.
+            return z3.ForAll([j], z3.Implies(z3.And(lo <= j, j < hi, VT(j)), self.b(fn(j))), patterns=[VT(j)])
         return z3.ForAll([j], z3.Implies(z3.And(lo <= j, j < hi), self.b(fn(j))))
 
     def exists(self, lo, hi, fn, kind="index"):
